@@ -776,11 +776,15 @@ theorem delivery_op (c : Cfg) (g : Unit) (s : St) (op : Op) :
       · simp [(hfl hs).1]
       · exact (hfl hs).2
 
-theorem recipients_op (c : Cfg) (ps : List Nat) (s : St) (op : Op) (hi : RecInv ps s) :
+theorem recipients_op (c : Cfg) (ps : List Nat) (s : St) (op : Op) (hi : RecInv ps s)
+    (hnd : recoveryDropped (applyOp c s op).2 = false) :
     (recipientsObs ps (applyOp c s op).2).1 = none ∧ RecInv (recipientsObs ps (applyOp c s op).2).2 (applyOp c s op).1 := by
   have hsup : ∀ (g : List Nat) (s : St) (sup : Sup), RecInv g s → RecInv g { s with sup := sup } := fun _ _ _ h => h
   have hstash : ∀ (g : List Nat) (s : St) (l : List (NType × Bool)), RecInv g s → RecInv g { s with stash := l } := fun _ _ _ h => h
   have hnext : ∀ (g : List Nat) (s : St) (n : Int), RecInv g s → RecInv g { s with next := n } := fun _ _ _ h => h
+  unfold recipientsObs
+  rw [hnd]
+  simp only [Bool.false_eq_true, if_false]
   cases op with
   | send ty e =>
     exact Pres_send c ty e hstash (fun _ _ => recipients_begin c e ty e.force false) ps s hi (fun _ _ => trivial)
@@ -788,18 +792,37 @@ theorem recipients_op (c : Cfg) (ps : List Nat) (s : St) (op : Op) (hi : RecInv 
     exact Pres_tick c e hsup hstash (fun _ ty force => recipients_begin c e ty force false)
       (fun _ => Pres_reminderStep c e hnext (recipients_begin c e .problem false true)) ps s hi (fun _ _ => trivial)
 
+/-- What the code does with a dropped Recovery request: nothing at all. -/
+theorem dropped_noop (c : Cfg) (s : St) (op : Op) (h : recoveryDropped (applyOp c s op).2 = true) :
+    (applyOp c s op).1 = s ∧ (applyOp c s op).2.events = [] := by
+  cases op with
+  | send ty e =>
+    simp only [recoveryDropped, applyOp, Bool.and_eq_true, beq_iff_eq, Bool.not_eq_true'] at h
+    have hb : sendBlocked e = true := by
+      simp only [sendBlocked, Bool.and_eq_true, Bool.not_eq_true']
+      exact ⟨by simpa using h.2, h.1.2⟩
+    simp [applyOp, sendStep, hb]
+  | tick e => simp [recoveryDropped, applyOp] at h
+
 theorem noDup_op (c : Cfg) (ls : Nat → Option Nat) (s : St) (op : Op) (hi : DupInv ls s) :
     (noDupObs ls (applyOp c s op).2).1 = none ∧ DupInv (noDupObs ls (applyOp c s op).2).2 (applyOp c s op).1 := by
   have hsup : ∀ (g : Nat → Option Nat) (s : St) (sup : Sup), DupInv g s → DupInv g { s with sup := sup } := fun _ _ _ h => h
   have hstash : ∀ (g : Nat → Option Nat) (s : St) (l : List (NType × Bool)), DupInv g s → DupInv g { s with stash := l } :=
     fun _ _ _ h => h
   have hnext : ∀ (g : Nat → Option Nat) (s : St) (n : Int), DupInv g s → DupInv g { s with next := n } := fun _ _ _ h => h
+  unfold noDupObs
+  generalize hls : (if recoveryDropped (applyOp c s op).2 = true then fun _ => none else ls) = ls'
+  have hi' : DupInv ls' s := by
+    subst hls
+    cases recoveryDropped (applyOp c s op).2
+    · simpa using hi
+    · intro u st hu; simp at hu
   cases op with
   | send ty e =>
-    exact Pres_send c ty e hstash (fun _ _ => noDup_begin c e ty e.force false) ls s hi (fun _ _ => trivial)
+    exact Pres_send c ty e hstash (fun _ _ => noDup_begin c e ty e.force false) ls' s hi' (fun _ _ => trivial)
   | tick e =>
     exact Pres_tick c e hsup hstash (fun _ ty force => noDup_begin c e ty force false)
-      (fun _ => Pres_reminderStep c e hnext (noDup_begin c e .problem false true)) ls s hi (fun _ _ => trivial)
+      (fun _ => Pres_reminderStep c e hnext (noDup_begin c e .problem false true)) ls' s hi' (fun _ _ => trivial)
 
 /-! ### reminder, one operation -/
 
